@@ -70,6 +70,21 @@ fn check_source(c: usize, h: usize, w: usize, max_dim: usize, vals: &[f32], out:
         Ok(f) if bits_eq(&flat(&f), vals) && shape_dims(&f.shape) == vec![n] => {}
         _ => fail(out, "flatten:sequence", format!("flatten of a vector of {} elements changed it", n)),
     }
+    // vector -> vector "reshape": whatever the library does with it (keep, refuse), the recorded
+    // shape of the result must match its data
+    for m in [n, n + 1, n.saturating_sub(1).max(1), 2 * n] {
+        if let Ok(r) = guard(|| s.clone().reshape(Shape::Single(m))) {
+            let len = flat(&r).len();
+            if shape_dims(&r.shape) != vec![len] || !shape_consistent(&r) {
+                fail(out, "reshape:vector-to-vector:shape", format!("reshape of a vector of {} elements to a vector of {} returns {} elements under the recorded shape {:?}", n, m, len, shape_dims(&r.shape)));
+            } else if len == n && !bits_eq(&flat(&r), vals) {
+                fail(out, "reshape:vector-to-vector:sequence", format!("reshape of a vector of {} elements to a vector of {} changed the sequence", n, m));
+            } else if len != n && len != m {
+                fail(out, "reshape:vector-to-vector:count", format!("reshape of a vector of {} elements to a vector of {} holds {} elements", n, m, len));
+            }
+            out.count("vector_to_vector_reshapes", 1);
+        }
+    }
     // reading a vector out as 3-D
     let ok3 = |v: &Vec<Vec<Vec<f32>>>| v.len() == c && v.iter().all(|x| x.len() == h && x.iter().all(|r| r.len() == w)) && bits_eq(&v.iter().flatten().flatten().cloned().collect::<Vec<f32>>(), vals);
     match guard(|| s.get_triple(&Shape::Triple(c, h, w))) {
@@ -169,7 +184,7 @@ impl Monitor for C14 {
         "grid: case = (source shape c x h x w in 1..D^3, content kind in {index-valued, random, special values}); every case runs Tensor::triple, flatten, get_flat, single, get_triple and reshape towards every target in 1..D^3, every factorisation of the element count, and (1,1,k)-style targets with k in {n-1, n, n+1, 2n}: equal-count targets must preserve the bit-exact row-major sequence, record a shape that matches the nesting, and round-trip to the identity; unequal-count targets (3D->3D, vector->3D, 3D->vector) must be refused by panic. random: source dims up to 12. large: element counts {4095..4097, 8192, 16383..16385, 20000, 30030, 32768, 65536, 65537, 100000, 131072} in a random factorisation c x h x w (mostly non-square planes), same checks."
     }
     fn assumptions(&self) -> Vec<&'static str> {
-        vec!["Single->Single reshape with a different length is outside the statement (vector<->3-D and 3-D<->3-D only)"]
+        vec!["Single->Single reshape with a different length is outside the refusal clause (vector<->3-D and 3-D<->3-D only); whatever it returns must still carry a recorded shape that matches its data"]
     }
     fn run(&self, gen: &str, seed: u64, idx: u64, _tier: Tier) -> Out {
         let mut rng = Rng::stream(seed, gen, idx);
